@@ -813,6 +813,98 @@ theorem runHistory_geom {coord : Coord} (ops : List Op) : ∀ {v : Vol} {w : VSt
       have := (nonspatial_geom (by intro s hs; cases hs) h1).1
       simp only [runHistoryGeom]; rw [← this]; exact a2
 
+/-! ## values over mixed histories (channel provenance) -/
+
+/-- one accepted operation other than `with_array`: a retained voxel holds, at channel index `c`, the input's value at
+the source voxel and the source channel index -/
+theorem apply_val {coord : Coord} {v : Vol} {op : Op} {w : VStep} (hp : v.geom.Pos) (hw : op.isWithArray = false)
+    (h : op.apply coord v = .ok w) (j i : I3) (hj : w.2 j = some i) (c : List Nat) :
+    w.1.arr j c = v.arr i (op.chanSrc v c) := by
+  cases op with
+  | spatial s => exact (applyVol_sound hp h).2.1.values j i hj c
+  | withArray shape a isInt => simp [Op.isWithArray] at hw
+  | getChannel sel keep =>
+    simp only [Op.apply, getChannelV] at h
+    split at h
+    · cases h
+    · split at h
+      · cases h
+      · cases keep
+        · simp only [Bool.false_eq_true, if_false, Except.ok.injEq] at h
+          subst h
+          obtain ⟨rfl, _⟩ := provOf_some hj
+          simp [Op.chanSrc]
+        · simp only [if_true] at h
+          obtain ⟨chans, _, h⟩ := bind_ok.mp h
+          simp only [pure, Except.pure, Except.ok.injEq] at h
+          subst h
+          obtain ⟨rfl, _⟩ := provOf_some hj
+          simp [Op.chanSrc]
+  | permuteChannels p =>
+    simp only [Op.apply, permuteChannelsV] at h
+    split at h
+    · cases h
+    · simp only [Except.ok.injEq] at h
+      subst h
+      obtain ⟨rfl, _⟩ := provOf_some hj
+      simp [Op.chanSrc]
+
+/-- **history invariant, value part, every history without `with_array`** (spatial operations mixed with channel
+selection / permutation): a surviving voxel holds, at channel index `c`, the original value at the composed source
+channel index -/
+theorem runHistory_val_all {coord : Coord} (ops : List Op) : ∀ {v : Vol} {w : VStep}, v.geom.Pos →
+    (∀ op ∈ ops, Op.isWithArray op = false) → runHistory coord v ops = .ok w →
+    ∀ j i, w.2 j = some i → ∀ c, w.1.arr j c = v.arr i (historyChanSrc coord v ops c) := by
+  induction ops with
+  | nil =>
+    intro v w hp _ h j i hj c
+    simp only [runHistory, Except.ok.injEq] at h
+    subst h
+    obtain ⟨rfl, _⟩ := provOf_some hj
+    rfl
+  | cons op rest ih =>
+    intro v w hp hs h j i hj c
+    simp only [runHistory] at h
+    obtain ⟨⟨v1, p1⟩, h1, h⟩ := bind_ok.mp h
+    dsimp only at h
+    obtain ⟨⟨v2, p2⟩, h2, h⟩ := bind_ok.mp h
+    simp only [pure, Except.pure, Except.ok.injEq] at h
+    subst h
+    obtain ⟨k, hk, hi⟩ := comp_some hj
+    have a1 := apply_pos hp h1
+    have e2 := ih a1.shape (fun o ho => hs o (List.mem_cons_of_mem _ ho)) h2 j k hk c
+    have e1 := apply_val hp (hs op (List.mem_cons_self ..)) h1 k i hi (historyChanSrc coord v1 rest c)
+    simp only [historyChanSrc, h1]
+    exact e2.trans e1
+
+/-- over spatial operations alone the channel provenance is the identity -/
+theorem historyChanSrc_spatial {coord : Coord} (ops : List Op) : ∀ {v : Vol} {w : VStep},
+    (∀ op ∈ ops, Op.isSpatial op = true) → runHistory coord v ops = .ok w → ∀ c, historyChanSrc coord v ops c = c := by
+  induction ops with
+  | nil => intro v w _ _ c; rfl
+  | cons op rest ih =>
+    intro v w hs h c
+    simp only [runHistory] at h
+    obtain ⟨⟨v1, p1⟩, h1, h⟩ := bind_ok.mp h
+    dsimp only at h
+    obtain ⟨⟨v2, p2⟩, h2, _⟩ := bind_ok.mp h
+    have hop := hs op (List.mem_cons_self ..)
+    cases op with
+    | spatial s =>
+      simp only [historyChanSrc, h1, Op.chanSrc, id]
+      exact ih (fun o ho => hs o (List.mem_cons_of_mem _ ho)) h2 c
+    | getChannel sel keep => simp [Op.isSpatial] at hop
+    | permuteChannels p => simp [Op.isSpatial] at hop
+    | withArray shape a isInt => simp [Op.isSpatial] at hop
+
+/-- what the channel provenance is on the cells of a volume with two channel dimensions -/
+theorem chanSrc_two (v : Vol) (a b : Nat) (hs : v.cshape = [a, b]) (k x y : Nat) :
+    Op.chanSrc v (.getChannel [(0, k)] false) [y] = [k, y] ∧ Op.chanSrc v (.getChannel [(1, k)] false) [y] = [y, k] ∧
+    Op.chanSrc v (.getChannel [(0, k)] true) [0, y] = [k, y] ∧ Op.chanSrc v (.getChannel [(1, k)] true) [y, 0] = [y, k] ∧
+    Op.chanSrc v (.permuteChannels [1, 0]) [x, y] = [y, x] ∧ Op.chanSrc v (.permuteChannels [0, 1]) [x, y] = [x, y] := by
+  simp [Op.chanSrc, hs, expandChan, expandChan.go, fixChan, permChan, findIdx, findIdx.go, List.lookup, List.range,
+    List.range.loop]
+
 /-! ## flip, handedness -/
 
 /-- the slice `flip_spatial` uses on a flipped axis reads the axis backwards, completely -/
